@@ -148,6 +148,20 @@ CHECKS = {
              'case files need unprivileged workers; D6 was found and repaired (fix: 6c0ccbc), the old behaviour is kept '
              'as a named deviation that TLC must refute.',
         design='5/C16'),
+    'C14': dict(
+        engine='spec/StringSource.tla, spec/StringSourceExport.tla',
+        technique='TLC enumeration of every access history (observer sequence, freeze, buffer-size class) x source kind x '
+                  'transformer chain x text of a one-value specification + replay of every case as a real assertion with a '
+                  'MainProgram built with the case\'s memory buffer size',
+        text='The specification says that every access returns the one value whose lines are divided at new-line only; TLC '
+             'enumerates 14 texts (FF, U+2028, CR LF, no final new-line, larger than the default buffer) x file / program '
+             'output x 7 value-preserving transformer chains x buffer sizes around the text length x every sequence of '
+             'observers reading as lines, as string, as file and through stdin, and checks that both cache '
+             'representations are exercised; each case must PASS, and a control with one wrong observer must FAIL.',
+        note='The specification is trivial by design (the property is a refinement claim); observer sequences up to 2 '
+             '(quick) / 3 (thorough); D5 (splitlines) was found and repaired (fix: cfee5d8); texts with CR are the open '
+             'known finding D5-CRLF (input signature).',
+        design='5/C14'),
 }
 
 NOT_YET = 'check not built yet (planned in DESIGN.md section 5); no claim is made'
